@@ -117,29 +117,28 @@ def normalize_types(f):
                 if o._reversed:
                     o = o._reverse()
 
-            elif self._reversed and o._reversed:
-                reverse_back = True
-                self = self.copy()
-                self._reversed = False
-                o = o.copy()
-                o._reversed = False
-
             else:
-                # one of the operands is reversed
-                if _lossless_reverse(self):
-                    self = self._reverse()
-                    if o._reversed:
-                        reverse_back = True
-                elif _lossless_reverse(o):
-                    o = o._reverse()
-                    if self._reversed:
-                        reverse_back = True
-                else:
-                    # Force reverse
-                    if self._reversed:
+                if self._reversed != o._reversed:
+                    # one of the operands is reversed: bring the other one into the same representation
+                    if _lossless_reverse(self):
                         self = self._reverse()
-                    if o._reversed:
+                    elif _lossless_reverse(o):
                         o = o._reverse()
+                    else:
+                        # Force reverse
+                        if self._reversed:
+                            self = self._reverse()
+                        if o._reversed:
+                            o = o._reverse()
+
+                if self._reversed and o._reversed:
+                    # work on the unreversed representations (with the flags cleared: f and what it calls would
+                    # otherwise undo the reversal themselves) and reverse the result
+                    reverse_back = True
+                    self = self.copy()
+                    self._reversed = False
+                    o = o.copy()
+                    o._reversed = False
 
         ret = f(self, o)
         if isinstance(ret, StridedInterval):
